@@ -123,12 +123,12 @@ theorem reportAll_append (s : Ups × Int) (a b : List (String × Int)) :
 
 /-- what the registry's upstream map and composite are, for a deployment with runners `ids` that has received `ms` -/
 def tracked (o : Op) (s : List String × List (String × Int)) : Prop :=
-  (o.reg.ups, o.reg.wm) = Wm.reportAll (Wm.Ups.init s.1, Wm.zeroTime) s.2
+  (o.reg.ups, o.reg.wm) = Wm.reportAll (Wm.Ups.init s.1, Wm.regInit) s.2
 
 open Rxn.Wm in
 theorem step_tracks (o : Op) (s : List String × List (String × Int)) (h : tracked o s) (e : OpEv) :
     tracked (o.step e).1 (epochOf s [e]) ∧
-    ∀ r ∈ (o.step e).2, r.told = (reportAll (Ups.init (epochOf s [e]).1, zeroTime) (epochOf s [e]).2).2 := by
+    ∀ r ∈ (o.step e).2, r.told = (reportAll (Ups.init (epochOf s [e]).1, regInit) (epochOf s [e]).2).2 := by
   obtain ⟨ids, ms⟩ := s
   unfold tracked at h ⊢
   cases e with
@@ -142,7 +142,7 @@ theorem step_tracks (o : Op) (s : List String × List (String × Int)) (h : trac
     simp only [Op.step, Op.watermark, epochOf]
     have hf := (opFireLoop_ok (o.reg.ups.report sd v).2 (o.reg.store.db.length + 1)
       { o with reg := { o.reg with ups := (o.reg.ups.report sd v).1, wm := (o.reg.ups.report sd v).2 } }).1
-    have hrep : reportAll (Ups.init ids, zeroTime) (ms ++ [(sd, v)]) = o.reg.ups.report sd v := by
+    have hrep : reportAll (Ups.init ids, regInit) (ms ++ [(sd, v)]) = o.reg.ups.report sd v := by
       rw [reportAll_append, ← h]; rfl
     refine ⟨by rw [hf.ups, hf.wm, hrep], ?_⟩
     intro r hr
